@@ -272,7 +272,10 @@ func normalize(opts *options, from interface{}) (*Config, Error) {
 
 	switch vFrom.Type() {
 	case tConfig:
-		return vFrom.Addr().Interface().(*Config), nil
+		// a Config passed by value is not addressable, tryTConfig takes care
+		if v, ok := tryTConfig(vFrom); ok {
+			return v.Addr().Interface().(*Config), nil
+		}
 	case tConfigMap:
 		return normalizeMap(opts, vFrom)
 	default:
